@@ -13,6 +13,9 @@ DATA = {
     "b": [[[0.0, 2.0], [1.0, 1.5]], [[-0.25, 0.5], [0.75, 1.0]]],
     "c": [[[0.1, 0.4], [0.3, 1.0], [0.2, 0.9]]],
 }
+# five diagrams, each of the four extremes (smallest / largest birth, smallest / largest persistence) attained in a
+# different one, none of them in the last (a running minimum / maximum that forgets earlier diagrams shows)
+DATA["d"] = [[[-0.5, 0.3]], [[0.2, 0.3]], [[0.1, 1.9]], [[1.1, 1.6]], [[0.4, 0.9]]]
 DATA["c32"] = DATA["c"]                      # the same values as a float32 array
 DATA["i"] = [[[0, 2], [1, 3], [1, 2]]]       # an integer array
 DTYPE = {"c32": np.float32, "i": np.int64}
@@ -42,7 +45,7 @@ SIGMA_STD = 0.0003  # narrow probe kernel: (smallest pixel)/40
 RULE = (
     "BFS over configuration histories of REAL PersistenceImager objects: initial states = all "
     "constructor products birth_range x pers_range x pixel_size (7x7x6; ranges include extents just above / below a multiple of the pixel) + defaults; operations = "
-    "birth_range=r (7), pers_range=r (7), pixel_size=s (6), fit(D) for 3 data sets x skew on/off (6) + a float32 and an integer data set (3) + fits through ONE reused array / list object refilled in place (4), fit_transform(D) for 2 data sets x skew on/off (4); "
+    "birth_range=r (7), pers_range=r (7), pixel_size=s (6), fit(D) for 3 data sets x skew on/off (6) + a float32 and an integer data set (3) + a 5-diagram collection with every extreme in another diagram (2) + fits through ONE reused array / list object refilled in place (4), fit_transform(D) for 2 data sets x skew on/off (4); "
     "depth 2 (quick) / 3 (thorough), plus the FULL tree of histories (no de-duplication) to depth 4 (5) over a reduced 9-operation alphabet from 3 states; states de-duplicated on the public geometry "
     "(ranges, width, height, resolution, pixel_size) with differential continuation of merged states. "
     "Every state: resolution*pixel = width/height = range extents, transform shape = resolution, "
@@ -79,7 +82,7 @@ def inits():
 
 OPS = ([["birth_range", list(r)] for r in RANGES] + [["pers_range", list(r)] for r in RANGES]
        + [["pixel_size", s] for s in PIXELS] + [["fit", k, sk] for k in ("a", "b", "c") for sk in (True, False)]
-       + [["fit", "c32", True], ["fit", "i", True], ["fit", "i", False]]
+       + [["fit", "c32", True], ["fit", "i", True], ["fit", "i", False], ["fit", "d", True], ["fit", "d", False]]
        + [["fit_buf", "p", True], ["fit_buf", "q", True], ["fit_listbuf", "b", True], ["fit_listbuf", "q", True]]
        + [["fit_transform", k, sk] for k in ("a", "c") for sk in (True, False)])
 
